@@ -394,6 +394,9 @@ class DefaultDataManager(DataManager):
                 ):
                     # Wait for the source location to be available on the destination path
                     await primary_loc.available.wait()
+                    # The transfer that was producing it may have failed in the meantime
+                    if primary_loc.data_type != DataType.PRIMARY:
+                        continue
                     # If yes, perform a symbolic link if possible
                     copy_tasks.append(
                         asyncio.create_task(
